@@ -1,5 +1,514 @@
-// C29 part of drv_negotiate (included)
-fn run_c29(_args: &std::collections::HashMap<String, String>) {
+// C29 part of drv_negotiate (included by bin/drv_negotiate.rs): a real requestor against a
+// real acceptor over loopback TCP through the recording proxy.
+
+enum AcCmd {
+    /// send(&Pdu::PData) whose encoding is `n` bytes long, payload bytes = marker
+    Send(usize, u8),
+    /// send_pdata: write `n` payload bytes (= marker) and finish
+    Pdata(usize, u8),
+    /// receive one PDU
+    Recv1,
+    /// receive P-DATA PDUs until a PDV flagged last
+    RecvLast,
+    Done,
+}
+
+fn pdata_pdu(ctx: u8, total: usize, marker: u8) -> Pdu {
+    // 6 bytes PDU header + 6 bytes PDV header + data
+    Pdu::PData {
+        data: vec![PDataValue { presentation_context_id: ctx, value_type: PDataValueType::Data, is_last: true, data: vec![marker; total.saturating_sub(12)] }],
+    }
+}
+
+fn send_result(r: Result<(), dicom_ul::association::Error>) -> String {
+    match r {
+        Ok(()) => "ok".into(),
+        Err(dicom_ul::association::Error::SendTooLongPdu { .. }) => "toolong".into(),
+        Err(e) => format!("err:{e}"),
+    }
+}
+
+fn do_send<A: SyncAssociation<TcpStream>>(a: &mut A, ctx: u8, n: usize, marker: u8) -> String {
+    match catch(|| SyncAssociation::send(a, &pdata_pdu(ctx, n, marker))) {
+        Ok(r) => send_result(r),
+        Err(p) => format!("panic:{p}"),
+    }
+}
+
+fn do_pdata<A: SyncAssociation<TcpStream>>(a: &mut A, ctx: u8, n: usize, marker: u8) -> String {
+    let r = catch(|| {
+        let mut w = a.send_pdata(ctx);
+        let data = vec![marker; n];
+        w.write_all(&data)?;
+        w.finish()
+    });
+    match r {
+        Ok(Ok(())) => "ok".into(),
+        Ok(Err(e)) => format!("err:{e}"),
+        Err(p) => format!("panic:{p}"),
+    }
+}
+
+fn do_recv1<A: SyncAssociation<TcpStream>>(a: &mut A) -> String {
+    match SyncAssociation::receive(a) {
+        Ok(Pdu::PData { .. }) => "ok".into(),
+        Ok(p) => format!("other:{}", p.short_description()),
+        Err(e) => format!("err:{e}"),
+    }
+}
+
+fn do_recv_last<A: SyncAssociation<TcpStream>>(a: &mut A) -> String {
+    loop {
+        match SyncAssociation::receive(a) {
+            Ok(Pdu::PData { data }) => {
+                if data.iter().any(|v| v.is_last) {
+                    return "ok".into();
+                }
+            }
+            Ok(p) => return format!("other:{}", p.short_description()),
+            Err(e) => return format!("err:{e}"),
+        }
+    }
+}
+
+
+/// One end of an established association, sync or async API behind the same calls.
+trait Endpoint {
+    fn send(&mut self, ctx: u8, n: usize, marker: u8) -> String;
+    fn pdata(&mut self, ctx: u8, n: usize, marker: u8) -> String;
+    fn recv1(&mut self) -> String;
+    fn recv_last(&mut self) -> String;
+    fn abort(self: Box<Self>);
+}
+
+struct SyncEp<A>(A);
+impl<A: SyncAssociation<TcpStream>> Endpoint for SyncEp<A> {
+    fn send(&mut self, ctx: u8, n: usize, marker: u8) -> String {
+        do_send(&mut self.0, ctx, n, marker)
+    }
+    fn pdata(&mut self, ctx: u8, n: usize, marker: u8) -> String {
+        do_pdata(&mut self.0, ctx, n, marker)
+    }
+    fn recv1(&mut self) -> String {
+        do_recv1(&mut self.0)
+    }
+    fn recv_last(&mut self) -> String {
+        do_recv_last(&mut self.0)
+    }
+    fn abort(self: Box<Self>) {
+        let _ = self.0.abort();
+    }
+}
+
+struct AsyncEp<A> {
+    rt: tokio::runtime::Runtime,
+    a: Option<A>,
+}
+impl<A: dicom_ul::association::AsyncAssociation<tokio::net::TcpStream> + Send> Endpoint for AsyncEp<A> {
+    fn send(&mut self, ctx: u8, n: usize, marker: u8) -> String {
+        use dicom_ul::association::AsyncAssociation as AA;
+        let a = self.a.as_mut().unwrap();
+        let pdu = pdata_pdu(ctx, n, marker);
+        match catch(|| self.rt.block_on(AA::send(a, &pdu))) {
+            Ok(r) => send_result(r),
+            Err(p) => format!("panic:{p}"),
+        }
+    }
+    fn pdata(&mut self, ctx: u8, n: usize, marker: u8) -> String {
+        use dicom_ul::association::AsyncAssociation as AA;
+        use tokio::io::AsyncWriteExt;
+        let a = self.a.as_mut().unwrap();
+        let r = catch(|| {
+            self.rt.block_on(async {
+                let mut w = AA::send_pdata(a, ctx);
+                let data = vec![marker; n];
+                w.write_all(&data).await?;
+                w.finish().await
+            })
+        });
+        match r {
+            Ok(Ok(())) => "ok".into(),
+            Ok(Err(e)) => format!("err:{e}"),
+            Err(p) => format!("panic:{p}"),
+        }
+    }
+    fn recv1(&mut self) -> String {
+        use dicom_ul::association::AsyncAssociation as AA;
+        let a = self.a.as_mut().unwrap();
+        match self.rt.block_on(AA::receive(a)) {
+            Ok(Pdu::PData { .. }) => "ok".into(),
+            Ok(p) => format!("other:{}", p.short_description()),
+            Err(e) => format!("err:{e}"),
+        }
+    }
+    fn recv_last(&mut self) -> String {
+        use dicom_ul::association::AsyncAssociation as AA;
+        let a = self.a.as_mut().unwrap();
+        loop {
+            match self.rt.block_on(AA::receive(a)) {
+                Ok(Pdu::PData { data }) => {
+                    if data.iter().any(|v| v.is_last) {
+                        return "ok".into();
+                    }
+                }
+                Ok(p) => return format!("other:{}", p.short_description()),
+                Err(e) => return format!("err:{e}"),
+            }
+        }
+    }
+    fn abort(mut self: Box<Self>) {
+        use dicom_ul::association::AsyncAssociation as AA;
+        let a = self.a.take().unwrap();
+        let _ = self.rt.block_on(AA::abort(a));
+    }
+}
+impl<A> Drop for AsyncEp<A> {
+    fn drop(&mut self) {
+        // the tokio stream is released inside its runtime
+        let a = self.a.take();
+        self.rt.block_on(async move { drop(a) });
+    }
+}
+
+fn new_rt() -> tokio::runtime::Runtime {
+    // AsyncPDataWriter's Drop needs a multi-thread runtime (block_in_place)
+    tokio::runtime::Builder::new_multi_thread().worker_threads(1).enable_all().build().expect("runtime")
+}
+
+fn accepted_json(pcs: &[PresentationContextNegotiated]) -> Value {
+    Value::Array(
+        pcs.iter()
+            .filter(|p| p.reason == PresentationContextResultReason::Acceptance)
+            .map(|p| json!({"id": p.id, "abs": uid_json(&p.abstract_syntax), "ts": uid_json(&p.transfer_syntax)}))
+            .collect(),
+    )
+}
+
+fn acceptor_case<A: AccessControl>(opts: ServerAssociationOptions<'static, A, DefaultNegotiation>, listener: TcpListener, view_tx: Sender<Value>, cmd_rx: Receiver<AcCmd>, res_tx: Sender<String>, is_async: bool) {
+    let (stream, _) = match listener.accept() {
+        Ok(x) => x,
+        Err(e) => {
+            let _ = view_tx.send(json!({"est": false, "err": format!("accept: {e}")}));
+            return;
+        }
+    };
+    let _ = stream.set_nodelay(true);
+    let view_of = |pcs: &[PresentationContextNegotiated], local: u32, peer: u32| {
+        json!({"est": true, "pcs": accepted_json(pcs), "local": halves(local), "peer": halves(peer)})
+    };
+    let first_ctx = |pcs: &[PresentationContextNegotiated]| pcs.iter().find(|p| p.reason == PresentationContextResultReason::Acceptance).map(|p| p.id).unwrap_or(1);
+    let (mut ep, ctx): (Box<dyn Endpoint>, u8) = if is_async {
+        let rt = new_rt();
+        let r = catch(|| {
+            rt.block_on(async {
+                stream.set_nonblocking(true).map_err(|e| e.to_string())?;
+                let ts = tokio::net::TcpStream::from_std(stream).map_err(|e| e.to_string())?;
+                opts.establish_async(ts).await.map_err(|e| format!("{e}"))
+            })
+        });
+        match r {
+            Ok(Ok(assoc)) => {
+                let ctx = first_ctx(assoc.presentation_contexts());
+                let _ = view_tx.send(view_of(assoc.presentation_contexts(), assoc.acceptor_max_pdu_length(), assoc.requestor_max_pdu_length()));
+                (Box::new(AsyncEp { rt, a: Some(assoc) }), ctx)
+            }
+            Ok(Err(e)) => {
+                let _ = view_tx.send(json!({"est": false, "err": e}));
+                return;
+            }
+            Err(p) => {
+                let _ = view_tx.send(json!({"est": false, "panic": p}));
+                return;
+            }
+        }
+    } else {
+        match catch(|| opts.establish(stream)) {
+            Ok(Ok(assoc)) => {
+                let ctx = first_ctx(assoc.presentation_contexts());
+                let _ = view_tx.send(view_of(assoc.presentation_contexts(), assoc.acceptor_max_pdu_length(), assoc.requestor_max_pdu_length()));
+                (Box::new(SyncEp(assoc)), ctx)
+            }
+            Ok(Err(e)) => {
+                let _ = view_tx.send(json!({"est": false, "err": format!("{e}")}));
+                return;
+            }
+            Err(p) => {
+                let _ = view_tx.send(json!({"est": false, "panic": p}));
+                return;
+            }
+        }
+    };
+    while let Ok(c) = cmd_rx.recv() {
+        let r = match c {
+            AcCmd::Send(n, m) => ep.send(ctx, n, m),
+            AcCmd::Pdata(n, m) => ep.pdata(ctx, n, m),
+            AcCmd::Recv1 => ep.recv1(),
+            AcCmd::RecvLast => ep.recv_last(),
+            AcCmd::Done => break,
+        };
+        if res_tx.send(r).is_err() {
+            break;
+        }
+    }
+}
+
+fn parse_pdu(bytes: &[u8]) -> Option<Pdu> {
+    dicom_ul::read_pdu(bytes, MAXIMUM_PDU_SIZE, false).ok().flatten()
+}
+
+fn rq_json(pdu: &Pdu) -> Option<Value> {
+    if let Pdu::AssociationRQ(rq) = pdu {
+        Some(json!({
+            "pv": rq.protocol_version, "appctx": rq.application_context_name, "called": rq.called_ae_title,
+            "pcs": rq.presentation_contexts.iter().map(|p| json!({"id": p.id, "abs": uid_json(&p.abstract_syntax),
+                      "tss": p.transfer_syntaxes.iter().map(|t| uid_json(t)).collect::<Vec<_>>()})).collect::<Vec<_>>(),
+            "maxlen": rq.user_variables.iter().find_map(|u| match u { UserVariableItem::MaxLength(l) => Some(halves(*l)), _ => None }).unwrap_or(json!([])),
+            "items": rq.user_variables.len(),
+        }))
+    } else {
+        None
+    }
+}
+
+/// run one case; returns (trace events, mismatches against the TLC-expected outcome)
+fn run_c29_case(c: &Value, selftest: bool, is_async: bool) -> (Vec<Value>, Vec<Value>) {
+    let (opts_j, cfg, exp) = (&c["opts"], &c["cfg"], &c["exp"]);
+    let mut ev = vec![json!({"ev": "c29", "opts": opts_j, "cfg": cfg, "kind": c["kind"], "api": if is_async { "async" } else { "sync" }})];
+    let mut mism = Vec::new();
+    // acceptor
+    let listener = TcpListener::bind("127.0.0.1:0").expect("bind");
+    let saddr = listener.local_addr().unwrap();
+    let (view_tx, view_rx) = channel();
+    let (cmd_tx, cmd_rx) = channel();
+    let (res_tx, res_rx) = channel();
+    let mut so = ServerAssociationOptions::new()
+        .ae_title(j_str(&cfg["aet"]).to_string())
+        .promiscuous(cfg["promiscuous"].as_bool().unwrap())
+        .max_pdu_length(u32_of(&cfg["maxpdu"]).unwrap())
+        .read_timeout(Duration::from_secs(20));
+    for a in j_arr(&cfg["abs"]) {
+        so = so.with_abstract_syntax(j_str(a).to_string());
+    }
+    for t in j_arr(&cfg["tss"]) {
+        so = so.with_transfer_syntax(j_str(t).to_string());
+    }
+    let called = j_str(&cfg["access"]) == "called";
+    let ac_thread = std::thread::spawn(move || {
+        if called {
+            acceptor_case(so.accept_called_ae_title(), listener, view_tx, cmd_rx, res_tx, is_async)
+        } else {
+            acceptor_case(so, listener, view_tx, cmd_rx, res_tx, is_async)
+        }
+    });
+    let proxy = Proxy::start(saddr, 8192);
+    // requestor
+    let mut co = ClientAssociationOptions::new()
+        .called_ae_title(j_str(&opts_j["called"]).to_string())
+        .max_pdu_length(u32_of(&opts_j["maxpdu"]).unwrap())
+        .read_timeout(Duration::from_secs(20));
+    for pc in j_arr(&opts_j["pcs"]) {
+        co = co.with_presentation_context(uid_text(&pc["abs"]), j_arr(&pc["tss"]).iter().map(uid_text).collect());
+    }
+    if opts_j["ext"].as_bool().unwrap_or(false) {
+        co = co.with_extended_negotiation("1.2.840.10008.5.1.4.1.2.2.1".to_string(), vec![1u8, 1, 0]);
+    }
+    if opts_j["role"].as_bool().unwrap_or(false) {
+        co = co.with_role_selection("1.2.840.10008.1.1".to_string(), true, true);
+    }
+    let view_rq = |pcs: &[PresentationContextNegotiated], local: u32, peer: u32| {
+        json!({"est": true,
+            "pcs": pcs.iter().map(|p| json!({"id": p.id, "abs": uid_json(&p.abstract_syntax), "ts": uid_json(&p.transfer_syntax)})).collect::<Vec<_>>(),
+            "local": halves(local), "peer": halves(peer)})
+    };
+    let fail_rq = |k: &str, e: String| json!({"est": false, k: e, "pcs": [], "local": [0, 0], "peer": [0, 0]});
+    let mut rq_assoc: Option<(Box<dyn Endpoint>, u8)> = None;
+    let rq_view = if is_async {
+        let rt = new_rt();
+        let paddr = proxy.addr;
+        match catch(|| rt.block_on(co.establish_async(paddr))) {
+            Ok(Ok(mut a)) => {
+                let _ = a.inner_stream().set_nodelay(true);
+                let v = view_rq(a.presentation_contexts(), a.requestor_max_pdu_length(), a.acceptor_max_pdu_length());
+                let ctx = a.presentation_contexts()[0].id;
+                rq_assoc = Some((Box::new(AsyncEp { rt, a: Some(a) }), ctx));
+                v
+            }
+            Ok(Err(e)) => fail_rq("err", format!("{e}")),
+            Err(p) => fail_rq("panic", p),
+        }
+    } else {
+        match catch(|| co.establish(proxy.addr)) {
+            Ok(Ok(mut a)) => {
+                let _ = a.inner_stream().set_nodelay(true);
+                let v = view_rq(a.presentation_contexts(), a.requestor_max_pdu_length(), a.acceptor_max_pdu_length());
+                let ctx = a.presentation_contexts()[0].id;
+                rq_assoc = Some((Box::new(SyncEp(a)), ctx));
+                v
+            }
+            Ok(Err(e)) => fail_rq("err", format!("{e}")),
+            Err(p) => fail_rq("panic", p),
+        }
+    };
+    let ac_view = view_rx.recv_timeout(Duration::from_secs(30)).unwrap_or(json!({"est": false, "err": "acceptor silent"}));
+    let mut ac_view = ac_view;
+    if ac_view.get("pcs").is_none() {
+        ac_view["pcs"] = json!([]);
+        ac_view["local"] = json!([0, 0]);
+        ac_view["peer"] = json!([0, 0]);
+    }
+    // binding A: compare with the outcome demanded by TLC
+    let mut exp_est = exp["est"].as_bool().unwrap();
+    if selftest {
+        exp_est = !exp_est;
+    }
+    if rq_view["est"].as_bool().unwrap() != exp_est {
+        mism.push(json!({"what": if exp_est { "requestor fails to establish although contexts were accepted" } else if exp["refused"].as_bool().unwrap() { "requestor establishes with an unusable maximum PDU length" } else { "requestor establishes although nothing was accepted / rejected" },
+                         "case": c, "rq": rq_view, "ac": ac_view}));
+    }
+    // data exchange
+    let mut step_events = Vec::new();
+    if let Some((a, ctx)) = rq_assoc.as_mut() {
+        let ctx = *ctx;
+        if ac_view["est"].as_bool().unwrap() {
+            for (k, st) in j_arr(&c["steps"]).iter().enumerate() {
+                let marker = (k + 1) as u8;
+                let n = u32_of(&st["n"]).unwrap() as usize;
+                let rq_side = j_str(&st["side"]) == "rq";
+                let is_send = j_str(&st["via"]) == "send";
+                let (ret, recv) = if is_send {
+                    // a single PDU fits the socket buffers: send first, receive only if it went out
+                    let ret = if rq_side {
+                        a.send(ctx, n, marker)
+                    } else {
+                        let _ = cmd_tx.send(AcCmd::Send(n, marker));
+                        res_rx.recv_timeout(Duration::from_secs(30)).unwrap_or("err:acceptor silent".into())
+                    };
+                    let recv = if ret == "ok" {
+                        if rq_side {
+                            let _ = cmd_tx.send(AcCmd::Recv1);
+                            res_rx.recv_timeout(Duration::from_secs(30)).unwrap_or("err:acceptor silent".into())
+                        } else {
+                            a.recv1()
+                        }
+                    } else {
+                        "none".to_string()
+                    };
+                    (ret, recv)
+                } else if rq_side {
+                    let _ = cmd_tx.send(AcCmd::RecvLast);
+                    let ret = a.pdata(ctx, n, marker);
+                    let recv = res_rx.recv_timeout(Duration::from_secs(30)).unwrap_or("err:acceptor silent".into());
+                    (ret, recv)
+                } else {
+                    let _ = cmd_tx.send(AcCmd::Pdata(n, marker));
+                    let recv = a.recv_last();
+                    let ret = res_rx.recv_timeout(Duration::from_secs(30)).unwrap_or("err:acceptor silent".into());
+                    (ret, recv)
+                };
+                let allowed = st["allowed"].as_bool().unwrap();
+                if (ret == "ok") != allowed {
+                    mism.push(json!({"what": if allowed { format!("{} of a PDU within the peer's maximum fails", j_str(&st["via"])) } else { "over-long send is not rejected locally".to_string() },
+                                     "case": c, "step": st, "ret": ret}));
+                }
+                step_events.push((marker, json!({"ev": "send", "side": st["side"], "via": st["via"], "n": st["n"], "ret": ret, "recv": recv})));
+            }
+        }
+    }
+    let _ = cmd_tx.send(AcCmd::Done);
+    drop(cmd_tx);
+    if let Some((a, _)) = rq_assoc.take() {
+        a.abort();
+    }
+    let _ = ac_thread.join();
+    let log = proxy.finish();
+    // wire observations
+    let mut wire: BTreeMap<(String, u8), Vec<Value>> = BTreeMap::new();
+    let mut unattributed = 0usize;
+    for e in &log {
+        if e.what != "pdu" {
+            continue;
+        }
+        match e.pdu_type {
+            1 => {
+                if let Some(j) = parse_pdu(&e.bytes).as_ref().and_then(rq_json) {
+                    ev.push(json!({"ev": "rqpdu", "req": j}));
+                }
+            }
+            2 | 3 => {
+                if let Some(p) = parse_pdu(&e.bytes) {
+                    ev.push(json!({"ev": "anspdu", "obs": answer_json(&p)}));
+                }
+            }
+            4 => {
+                if e.bytes.len() >= 13 {
+                    wire.entry((e.from.to_string(), e.bytes[12])).or_default().push(halves(e.len));
+                } else {
+                    unattributed += 1;
+                }
+            }
+            _ => {}
+        }
+    }
+    ev.push(json!({"ev": "est", "rq": rq_view, "ac": ac_view}));
+    for (marker, mut se) in step_events {
+        let side = j_str(&se["side"]).to_string();
+        se["wire"] = Value::Array(wire.remove(&(side, marker)).unwrap_or_default());
+        ev.push(se);
+    }
+    if !wire.is_empty() || unattributed > 0 {
+        // P-DATA on the wire that belongs to no recorded call: shown to the validator as a
+        // call that reported nothing
+        for ((side, _m), lens) in wire {
+            ev.push(json!({"ev": "send", "side": side, "via": "send", "n": [65535, 65535], "ret": "unattributed", "recv": "none", "wire": lens}));
+        }
+    }
+    (ev, mism)
+}
+
+fn run_c29(args: &std::collections::HashMap<String, String>) {
+    let cases = read_ndjson(&args["cases"]);
+    let selftest = args.contains_key("selftest");
+    let is_async = args.contains_key("async");
+    let jobs: usize = args.get("jobs").map(|s| s.parse().unwrap()).unwrap_or(6);
+    let next = std::sync::atomic::AtomicUsize::new(0);
+    let results: std::sync::Mutex<Vec<Option<(Vec<Value>, Vec<Value>)>>> = std::sync::Mutex::new((0..cases.len()).map(|_| None).collect());
+    std::thread::scope(|sc| {
+        for _ in 0..jobs {
+            sc.spawn(|| loop {
+                let i = next.fetch_add(1, std::sync::atomic::Ordering::SeqCst);
+                if i >= cases.len() {
+                    break;
+                }
+                let r = run_c29_case(&cases[i], selftest && i % 9 == 0, is_async);
+                results.lock().unwrap()[i] = Some(r);
+            });
+        }
+    });
+    let mut w = NdjsonWriter::create(&args["out"]);
     let mut rep = Report::new();
+    let (mut est, mut sends) = (0usize, 0usize);
+    let mut distinct = std::collections::BTreeSet::new();
+    for (i, slot) in results.into_inner().unwrap().into_iter().enumerate() {
+        let (ev, mism) = slot.expect("case result");
+        rep.cases += 1;
+        for e in &ev {
+            if e["ev"] == "est" && e["rq"]["est"] == true {
+                est += 1;
+            }
+            if e["ev"] == "send" {
+                sends += 1;
+            }
+            w.emit(e);
+        }
+        distinct.insert(format!("{}|{}", cases[i]["opts"], cases[i]["cfg"]));
+        for m in mism {
+            rep.mismatch(m);
+        }
+    }
+    let lines = w.finish();
+    rep.extra.insert("events".into(), json!(lines));
+    rep.extra.insert("established".into(), json!(est));
+    rep.extra.insert("send_calls".into(), json!(sends));
+    rep.extra.insert("distinct".into(), json!(distinct.len()));
     rep.print();
 }
